@@ -17,17 +17,38 @@ def alpha(v):
         return {"t": "int", "i": v}
     if isinstance(v, str):
         return {"t": "str", "s": v}
+    if ITEMS[0] and isinstance(v, list) and len(v) == 1 and type(v[0]) is int:
+        return {"t": "int", "i": v[0]}        # host "items": the abstract value n is the list [n]
+    if ITEMS[0] and isinstance(v, list) and not v:
+        return {"t": "elist"}
     return {"t": "alien", "s": repr(v)[:40]}
 
 
+ITEMS = [False]
+
+
+PYNONE = {"t": "pynone"}
+_ABSENT = object()
+
+
+def slot(d, k):
+    """alpha of a dict slot that distinguishes 'holds None' from 'not there'"""
+    v = d.get(k, _ABSENT)
+    return NONE if v is _ABSENT else PYNONE if v is None else alpha(v)
+
+
 def gamma(v):
+    if v["t"] == "pynone":
+        return None
+    if ITEMS[0] and v["t"] == "int":
+        return [v["i"]]
     return v["i"] if v["t"] == "int" else v["s"]
 
 
 def make_sp(cfg):
     def getter(self):
         u = self.u
-        return "bad" if u == 2 else 10 + u
+        return "bad" if u == 2 else [10 + u] if cfg["host"] == "items" else 10 + u
 
     prop = spec_property(getter, overridable=cfg["ov"], cache=cfg["cache"])
     if cfg["fset"]:
@@ -43,6 +64,11 @@ def make_sp(cfg):
     if host == "managed":
         ns["__annotations__"] = {"u": int, "p": int}
         ns["_prepare_p"] = lambda self, v: v + 100 if isinstance(v, int) and not isinstance(v, bool) else v
+    if host == "items":
+        # List[int] with an element preparer only: the getter result / an assigned list goes through the element preparer and the type check
+        from typing import List
+        ns["__annotations__"] = {"u": int, "p": List[int]}
+        ns["_prepare_p_item"] = lambda self, v: v + 100 if isinstance(v, int) and not isinstance(v, bool) else v
     if cfg.get("shared"):
         # the SAME property object reaches the host through a plain mixin that a sibling spec class (managing the attribute
         # differently: str, other preparer) and a plain class also inherit, and they used it first: none of the host's business
@@ -57,16 +83,19 @@ def make_sp(cfg):
             except Exception:  # noqa: BLE001
                 pass
         return spec_class(type("Host", (mixin,), ns))
+    if cfg.get("frozen"):
+        return spec_class(frozen=True)(type("Host", (), ns))
     return spec_class(type("Host", (), ns))
 
 
 def sp_state(obj):
     d = obj.__dict__
-    return {"entry": alpha(d.get("p")), "under": d.get("u", -1), "backing": alpha(d.get("_b"))}
+    return {"entry": slot(d, "p"), "under": d.get("u", -1), "backing": slot(d, "_b")}
 
 
 def sp_path(cls, cfg, path):
-    obj = cls()
+    ITEMS[0] = cfg["host"] == "items"
+    obj = cls(p=gamma({"t": "int", "i": 5})) if cfg.get("initov") else cls()
     steps = []
     for a in path:
         res, val = "ok", None
@@ -81,13 +110,13 @@ def sp_path(cls, cfg, path):
                 obj.u = a["u"]
         except Exception as e:  # noqa: BLE001
             res = type(e).__name__
-        steps.append({"a": a, "res": res, "val": alpha(val), "st": sp_state(obj)})
+        steps.append({"a": a, "res": res, "val": PYNONE if (val is None and res == "ok" and a["op"] == "read") else alpha(val), "st": sp_state(obj)})
     return {"kind": "sp", "cfg": cfg, "steps": steps}
 
 
 def make_cp(cfg):
     def getter(cls):
-        return cls.tag * 10 + cls.u
+        return None if cls.u == 2 else cls.tag * 10 + cls.u
 
     prop = classproperty(getter, overridable=cfg["ov"], cache=cfg["cache"], cache_per_subclass=cfg["per"])
     if cfg["fset"]:
@@ -96,9 +125,9 @@ def make_cp(cfg):
         prop = prop.setter(fset)
     if cfg["fdel"]:
         def fdel(cls):
-            Base._b = None
+            Base._b = _ABSENT
         prop = prop.deleter(fdel)
-    Base = type("Base", (), {"tag": 1, "u": 0, "_b": None, "p": prop})
+    Base = type("Base", (), {"tag": 1, "u": 0, "_b": _ABSENT, "p": prop})
     Mid = type("Mid", (Base,), {"tag": 2})
     Leaf = type("Leaf", (Mid,), {"tag": 3})
     return {"Base": Base, "Mid": Mid, "Leaf": Leaf}, prop
@@ -106,13 +135,13 @@ def make_cp(cfg):
 
 def cp_state(classes, prop):
     cache = prop._cache
-    c = {"shared": alpha(cache.get(None))}
+    c = {"shared": slot(cache, None)}
     for n, k in classes.items():
-        c[n] = alpha(cache.get(k))
+        c[n] = slot(cache, k)
     extra = [k for k in cache if k is not None and k not in classes.values()]
     if extra:
         c["shared"] = {"t": "alien", "s": "extra cache keys"}
-    return {"c": c, "under": classes["Base"].u, "backing": alpha(classes["Base"]._b)}
+    return {"c": c, "under": classes["Base"].u, "backing": NONE if classes["Base"]._b is _ABSENT else PYNONE if classes["Base"]._b is None else alpha(classes["Base"]._b)}
 
 
 def cp_path(cfg, path):
@@ -131,7 +160,7 @@ def cp_path(cfg, path):
                 classes["Base"].u = a["u"]
         except Exception as e:  # noqa: BLE001
             res = type(e).__name__
-        steps.append({"a": a, "res": res, "val": alpha(val), "st": cp_state(classes, prop)})
+        steps.append({"a": a, "res": res, "val": PYNONE if (val is None and res == "ok" and a["op"] == "read") else alpha(val), "st": cp_state(classes, prop)})
     return {"kind": "cp", "cfg": cfg, "steps": steps}
 
 
@@ -148,6 +177,20 @@ def run_sp(job):
             for _ in range(n_random):
                 out.append(sp_path(cls, cfg, [rnd.choice(acts) for _ in range(rlen)]))
                 out[-1]["shared"] = shared
+    return out
+
+
+def run_sp_frozen(job):
+    """Frozen hosts: cfg carries frozen=True (and initov); every path of the alphabet."""
+    cfgs, acts, L, n_random, rlen, sd = job
+    rnd = random.Random(sd)
+    out = []
+    for cfg in cfgs:
+        cls = make_sp(cfg)
+        for path in itertools.product(acts, repeat=L):
+            out.append(sp_path(cls, cfg, list(path)))
+        for _ in range(n_random):
+            out.append(sp_path(cls, cfg, [rnd.choice(acts) for _ in range(rlen)]))
     return out
 
 
